@@ -13,7 +13,11 @@ use std::sync::Mutex;
 use std::sync::atomic::{AtomicBool, AtomicU64, Ordering};
 use std::time::Instant;
 
-pub const VERIF_DIR: &str = "/verif";
+/// Root of the verification tree (known findings, replays, evidence). `/verif` unless
+/// `VERIF_ROOT` is set (used by background runs from a snapshot of /verif).
+pub fn verif_dir() -> String {
+    std::env::var("VERIF_ROOT").unwrap_or_else(|_| "/verif".to_string())
+}
 pub const SHARDS: usize = 16;
 
 #[derive(Clone, Copy, PartialEq, Eq, Debug)]
@@ -226,7 +230,7 @@ pub struct KnownFindings {
 
 impl KnownFindings {
     pub fn load() -> KnownFindings {
-        let path = format!("{VERIF_DIR}/known_findings.jsonl");
+        let path = format!("{}/known_findings.jsonl", verif_dir());
         let mut entries = vec![];
         if let Ok(text) = std::fs::read_to_string(&path) {
             for line in text.lines() {
@@ -610,7 +614,7 @@ pub fn sample_strategy<S: Strategy>(s: &S, seed: u64, n: usize) -> Vec<S::Value>
 // ------------------------------------------------------------------------------------------
 
 pub fn replay_dir(id: &str) -> PathBuf {
-    PathBuf::from(format!("{VERIF_DIR}/replays/{id}"))
+    PathBuf::from(format!("{}/replays/{id}", verif_dir()))
 }
 
 pub fn write_replay(id: &str, v: &Violation) -> PathBuf {
@@ -720,8 +724,8 @@ pub fn finish(mut report: Report, known_lines: Vec<String>) -> i32 {
         "wall_s": (wall * 1000.0).round() / 1000.0,
         "violations": report.violations.len(),
     });
-    let _ = std::fs::create_dir_all(format!("{VERIF_DIR}/evidence"));
-    let path = format!("{VERIF_DIR}/evidence/{id}.json");
+    let _ = std::fs::create_dir_all(format!("{}/evidence", verif_dir()));
+    let path = format!("{}/evidence/{id}.json", verif_dir());
     if let Err(e) = std::fs::write(&path, serde_json::to_string_pretty(&evidence).unwrap()) {
         eprintln!("cannot write evidence {path}: {e}");
         return 2;
